@@ -135,9 +135,17 @@ def r6(ctx, rep):
                             '(`branch.has(x)` with x a node the rule goes on to add), the fairness gate, or a limit guard -- for every rule slot of every logic')
     n = 0
     seen = set()
-    for s in common.slots(ctx):
-        if s.sch is None:
-            continue
+    from .. import frames
+    from types import SimpleNamespace
+
+    def all_slots():
+        for s_ in common.slots(ctx):
+            if s_.sch is not None:
+                yield s_
+            elif frames.access_base(m, s_.rc):
+                # frame rules (reflexive / transitive / symmetric / serial): their schema is extracted too
+                yield SimpleNamespace(lg=s_.lg, rc=s_.rc, sch=ctx.ex.extract(s_.rc))
+    for s in all_slots():
         n += 1
         rep.instance(R6, ok=not s.sch.problems, nontrivial=(s.lg.name, s.rc.name))
         for p_ in s.sch.problems:
